@@ -68,6 +68,31 @@ Proof.
   intros Hp Hne. split; [apply merge_tag_all; auto|]. intros i Hi. rewrite concat_groups. apply in_seq. lia.
 Qed.
 
+(* staged merges: a block of consecutive jobs (chunks a .. a + sum ns - 1) is stored under the ordinary key
+   only if it is the whole dependency; every proper block gets a tagged key *)
+Lemma fold_min_ge d : forall l, Forall (fun x => (d <= x)%nat) l -> fold_right Nat.min d l = d.
+Proof. induction l as [|x l IH]; intros H; [reflexivity|]. inversion H; subst. cbn. rewrite IH by auto. lia. Qed.
+
+Lemma list_min_seq a k : list_min (seq a (S k)) = a.
+Proof.
+  unfold list_min. cbn [seq hd fold_right]. rewrite fold_min_ge; [lia|].
+  apply Forall_forall. intros x Hx. apply in_seq in Hx. lia.
+Qed.
+
+Lemma merge_tag_block_plain_only_if_full ndep a ns :
+  Forall (fun n => (0 < n)%nat) ns -> ns <> [] -> (a + list_sum ns <= ndep)%nat ->
+  merge_tag ndep (groups_of a ns) = Ok None -> a = 0%nat /\ list_sum ns = ndep.
+Proof.
+  intros Hp Hne Hle. unfold merge_tag. rewrite concat_groups, nodupb_seq. cbn [negb].
+  destruct ns as [|n ns]; [congruence|]. inversion Hp; subst.
+  destruct (list_sum (n :: ns)) as [|k] eqn:E.
+  { change (list_sum (n :: ns)) with (n + list_sum ns)%nat in E. lia. }
+  change (seq a (S k)) with (a :: seq (S a) k) at 1. cbv iota.
+  rewrite list_max_seq, list_min_seq.
+  destruct (Nat.eqb a 0) eqn:E1; destruct (Nat.eqb (a + k) (ndep - 1)) eqn:E2; cbn [andb]; try discriminate.
+  intros _. apply Nat.eqb_eq in E1. apply Nat.eqb_eq in E2. lia.
+Qed.
+
 Lemma tcodec : forall k rs, tdec k (tenc k rs) = Some rs.
 Proof. intros k rs. unfold tdec, tenc. cbn. rewrite Z.eqb_refl. reflexivity. Qed.
 
